@@ -217,6 +217,17 @@ def doEnci : List String → String
     | _, _ => bad
   | _ => bad
 
+/-- `encinf <hh> <n>`: the first n bytes of `encode_streaming(repeat(hh))` (an unbounded source) -/
+def doEncInf : List String → String
+  | [b, n] =>
+    match parseHexChars b.toList, n.toNat? with
+    | some [b], some n =>
+      let (_, outs) := (Enc.new (List.replicate n b)).run n
+      let bytes := outs.filterMap fun o => match o with | .byte x => some x | _ => none
+      if bytes.length = n then hexOrDash bytes else "short"
+    | _, _ => bad
+  | _ => bad
+
 /-- `frame <bytes>`: the wire-format specification -/
 def doFrame : List String → String
   | [p] =>
@@ -290,7 +301,16 @@ def doDec (cov : Array Nat) : List String → String × Array Nat
         | "R" :: rest =>
           let (d', n) := d.reset
           go d' idx (s!"{idx}:R:{n}" :: acc) cov rest
+        | "N" :: rest =>
+          -- `Decoder::new()`: replace the decoder by a new one
+          go (Dec.fresh cap) idx (s!"{idx}:N" :: acc) cov rest
         | tok :: rest =>
+          if tok.startsWith "B" then
+            -- `Decoder::from_buf(buf)` with a buffer that already holds the given bytes
+            match parseBytes (tok.drop 1).toString with
+            | none => (none, cov)
+            | some bs => go (Dec.fromBuf { cap := cap, rdata := bs.reverse }) idx (s!"{idx}:B" :: acc) cov rest
+          else
           match parseBytes tok with
           | none => (none, cov)
           | some bs =>
@@ -505,6 +525,7 @@ def handle (cov : Array Nat) (line : String) : String × Array Nat :=
   | ["stats"] => (showCov cov, cov)
   | "enc" :: args => (doEnc args, cov)
   | "enci" :: args => (doEnci args, cov)
+  | "encinf" :: args => (doEncInf args, cov)
   | "frame" :: args => (doFrame args, cov)
   | "decode" :: args => (doDecode args, cov)
   | "iter" :: args => (doIter args, cov)
